@@ -210,7 +210,8 @@ def _ident(args, ctx):
 
 CFG = """SPECIFICATION Spec
 CONSTANTS
-  Negs = {TRUE, FALSE}
+  Negs = {{TRUE, FALSE}}
+  Deep = {deep}
 INVARIANT PsiNNonNegative
 INVARIANT Orthogonal
 INVARIANT NormalIsPolCrossTor
@@ -222,7 +223,7 @@ INVARIANT EmitCase
 
 
 def run(v):
-    res = core.run_tlc("FluxMap", CFG, workers=1, seed=v.seed, timeout=1800)
+    res = core.run_tlc("FluxMap", CFG.format(deep="TRUE" if v.tier == "thorough" else "FALSE"), workers=1, seed=v.seed, timeout=3000)
     core.tlc_must_pass(res, "FluxMap")
     v.add_tlc(res, "FluxMap")
     cases = [r for r in res.records if "psin" in r]
